@@ -133,6 +133,7 @@ func NewPool(rng *mrand.Rand) (*Pool, error) {
 type Cfg struct {
 	Src0       int    `json:"src0"`    // source size at the start
 	Growth     int    `json:"growth"`  // how much it may grow
+	Ahead      int    `json:"ahead"`   // entries the source's get-entries serves beyond the STH it announces (lagging front end)
 	Bad        []int  `json:"bad"`     // indices of unparsable entries
 	DestLen    int    `json:"destLen"` // leaves initially present at the destination (indices 0..DestLen-1, honest history)
 	DestInt    int    `json:"destInt"` // of which integrated
@@ -141,11 +142,47 @@ type Cfg struct {
 	Submitters int    `json:"submitters"`
 	Chan       int    `json:"chan"`   // ChannelSize
 	Cont       bool   `json:"cont"`   // continuous mode
-	Start      int    `json:"start"`  // StartIndex in one-shot mode: 0 or -1 (= destination tree size)
+	Start      int    `json:"start"`  // start_index: -1 (= destination tree size), 0, inside, equal to or beyond the STH (continuous mode ignores it)
+	End        int    `json:"end"`    // end_index: 0 (none), inside, equal to or beyond the STH (continuous mode ignores it)
 	Forked     bool   `json:"forked"` // the source serves history F, which shares only its first ForkAt leaves with H
 	ForkAt     int    `json:"forkAt"`
 	IDFunc     string `json:"idfunc"` // "cert" | "index"
 	Mode       string `json:"mode"`   // "run" (Controller.Run) | "master" (RunWhenMaster, scripted election) | "noop" (RunWhenMaster, election2.NoopFactory)
+}
+
+// inRange: index i belongs to the job the configuration describes (specification: InRange).
+func (c Cfg) inRange(i int) bool {
+	return c.Cont || (i >= c.Start && (c.End == 0 || i < c.End))
+}
+
+// rangeClass names the configured range relative to the STH of a pass ("" for the default configuration).
+func (c Cfg) rangeClass(sth int) string {
+	if (c.Start == 0 || c.Start == -1) && c.End == 0 && c.Ahead == 0 {
+		return ""
+	}
+	rel := func(v int) string {
+		switch {
+		case v < sth:
+			return "inside"
+		case v == sth:
+			return "equal"
+		}
+		return "beyond"
+	}
+	s, e := "0", "none"
+	if c.Start < 0 {
+		s = "tree"
+	} else if c.Start > 0 {
+		s = rel(c.Start)
+	}
+	if c.End > 0 {
+		e = rel(c.End)
+	}
+	a := "0"
+	if c.Ahead > 0 {
+		a = "+"
+	}
+	return fmt.Sprintf("range:cont=%v:start=%s:end=%s:ahead=%s", c.Cont, s, e, a)
 }
 
 func (c Cfg) isBad(i int) bool {
@@ -252,6 +289,8 @@ type World struct {
 	addOK        int
 	emptyPages   int // empty get-entries pages served
 	emptyAdds    int // AddSequencedLeaves requests without leaves refused
+	endBeyond    int // one-shot passes whose explicit end_index lay beyond the STH while the source served entries beyond that STH
+	rangePasses  int // passes run under a non-default range configuration
 	kinds        map[string]bool
 }
 
@@ -459,6 +498,13 @@ func (w *World) getSTH() (int, []byte) {
 	}
 	w.sthSize, w.sthRoot = n, root
 	w.lastIdle = false
+	if rc := w.C.rangeClass(n); rc != "" {
+		w.kinds[rc] = true
+		w.rangePasses++
+		if !w.C.Cont && w.C.End > n && w.C.Ahead > 0 {
+			w.endBeyond++
+		}
+	}
 	w.emit(map[string]any{"ev": "STH", "code": "OK", "size": n})
 	b, _ := json.Marshal(map[string]any{"tree_size": n, "timestamp": ts, "sha256_root_hash": b64(root), "tree_head_signature": b64(sig)})
 	return 200, b
@@ -470,7 +516,7 @@ func (w *World) getConsistency(first, second int) (int, []byte) {
 		w.emit(map[string]any{"ev": "Cons", "first": first, "second": second, "code": "ERR", "valid": false})
 		return st, []byte("injected")
 	}
-	if first < 0 || second > w.srcSize || first > second {
+	if first < 0 || second > w.srcSize+w.C.Ahead || first > second {
 		w.emit(map[string]any{"ev": "Cons", "first": first, "second": second, "code": "ERR", "valid": false})
 		return 400, []byte("bad range")
 	}
@@ -515,11 +561,14 @@ func (w *World) getEntries(start, end int) (int, []byte) {
 		end = start + k - 1 // short read
 		w.kinds[fmt.Sprintf("fetch:short:%d/%d", k, reqEnd-start+1)] = true
 	}
-	if start < 0 || start >= w.srcSize {
+	// the log serves what it has, which may be more than the STH it announced covers (Cfg.Ahead; growth during the pass)
+	have := w.srcSize + w.C.Ahead
+	if start < 0 || start >= have {
 		w.emit(map[string]any{"ev": "Fetch", "start": start, "end": reqEnd, "code": "ERR", "n": 0})
 		// the fetcher retries such a request at once and for ever: stop a runaway run (counted, not timed)
-		if w.badRange++; w.badRange == 50 {
-			w.Rep.Violate("fetch:runaway-beyond-source", fmt.Sprintf("get-entries starting at %d asked 50 times although the source (size %d) has no such entry", start, w.srcSize), w.ctxt())
+		// (every 50 such requests: a restarted process may run away again)
+		if w.badRange++; w.badRange%50 == 0 {
+			w.Rep.Violate("fetch:runaway-beyond-source", fmt.Sprintf("get-entries starting at %d asked 50 times although the source (serving %d entries, STH of this pass %d) has no such entry", start, have, w.sthSize), w.ctxt())
 			w.envLocked("cancel")
 		}
 		return 400, []byte("bad range")
@@ -531,8 +580,8 @@ func (w *World) getEntries(start, end int) (int, []byte) {
 		w.emit(map[string]any{"ev": "Fetch", "start": start, "end": reqEnd, "code": "OK", "n": 0})
 		return 200, []byte([]string{`{"entries":[]}`, `{"entries":null}`, `{}`}[(-empty-3)%3])
 	}
-	if end >= w.srcSize {
-		end = w.srcSize - 1
+	if end >= have {
+		end = have - 1
 	}
 	type le struct {
 		LeafInput string `json:"leaf_input"`
@@ -819,7 +868,7 @@ func (w *World) Final(ret string, complete bool, from int) {
 	}
 	if complete {
 		for i := from; i < w.sthSize; i++ {
-			if w.dest[int64(i)] == nil {
+			if w.C.inRange(i) && w.dest[int64(i)] == nil {
 				w.Rep.Violate("mirror:gap", fmt.Sprintf("run ended %s, but destination lacks index %d of [%d,%d)", ret, i, from, w.sthSize), w.ctxt())
 				break
 			}
